@@ -45,13 +45,13 @@ def cases(tier, seed):
     # integer types show only here); terms sit on the last atoms, next to the ones the fragment is attached to
     for j in range(6 if tier == "quick" else 60):
         out.append({"kind": "large", "ns": int([100200, 131100, 200300, 262200, 100007, 310000][j % 6] + rng.integers(0, 50)), "no": int(rng.integers(4, 7)),
-                    "mode": ["default", "repeat", "shared"][j % 3], "s": int(rng.integers(1 << 30)), "mapped": j % 4 != 3})
+                    "mode": ["default", "repeat", "shared"][j % 3], "s": int(rng.integers(1 << 30)), "mapped": j % 4 != 3, "many": j % 2 == 1})
     return out
 
 
-def _build_large(rng, n):
+def _build_large(rng, n, many=False):
     from mofun import Atoms
-    top = 16
+    top = 16 if not many else 2400
     nt = 2
     atom_types = np.zeros(n, dtype=int)
     atom_types[-top:] = rng.integers(0, nt, top)
@@ -61,7 +61,8 @@ def _build_large(rng, n):
     for kind in atomsgen.KNAMES:
         w = atomsgen.WIDTH[kind]
         terms = []
-        for start in sorted(set(int(x) for x in rng.integers(n - top, n - w - 2, 3))):
+        starts = sorted(set(int(x) for x in rng.integers(n - top, n - w - 2, 3))) if not many else range(n - top, n - w - 2)
+        for start in starts:        # many: a chain of > 2048 terms of every kind (tables, masks and blocks sized in powers of two end before that)
             terms.append(tuple(range(start, start + w)) if rng.integers(2) else tuple(range(start + w - 1, start - 1, -1)))
         kw[atomsgen.ARR[kind]] = terms
         kw["%s_types" % kind] = [int(x) for x in rng.integers(0, 2, len(terms))]
@@ -208,7 +209,7 @@ def run_case(case, ctx):
     st = ctx.stats
     if case["kind"] == "large":
         n = case["ns"]
-        a = _build_large(rng, n)
+        a = _build_large(rng, n, many=case.get("many", False))
         if case["mode"] == "shared":
             from mofun import Atoms
             no = case["no"]
@@ -231,9 +232,16 @@ def run_case(case, ctx):
             # attach the fragment's first atoms to consecutive atoms one or two places beside an existing term
             kind = atomsgen.KNAMES[int(rng.integers(4))]
             arr = np.asarray(getattr(a, atomsgen.ARR[kind])).reshape(-1, atomsgen.WIDTH[kind])
-            t = sorted(int(x) for x in arr[int(rng.integers(len(arr)))])
-            shift = int(rng.choice([1, 2, -1, -2])) if n > 200000 else int(rng.choice([1, -1]))
-            tgt = [x + shift for x in t]
+            if case.get("many"):
+                # the fragment's term lands on exactly the atoms of an existing term far down the list (row > 2048), listed either way
+                row = [int(x) for x in arr[int(rng.integers(2060, len(arr)))]]
+                tgt = row if rng.integers(2) else row[::-1]
+                shift = 0
+                st.count("terms_superseded_beyond_row_2048")
+            else:
+                t = sorted(int(x) for x in arr[int(rng.integers(len(arr)))])
+                shift = int(rng.choice([1, 2, -1, -2])) if n > 200000 else int(rng.choice([1, -1]))
+                tgt = [x + shift for x in t]
             if max(tgt) < n and min(tgt) >= 0:
                 idx_map = {i: tgt[i] for i in range(len(tgt))}
         run_one(rng, a, o, idx_map, case["mode"], ctx, st)
@@ -284,6 +292,8 @@ def requirements(stats, tier):
             need.append("mode %s not observed" % m)
     if stats.get("extensions_of_structures_with_more_than_1e5_atoms") < (6 if tier == "quick" else 60) or stats.nseen("large_size_class") < 3:
         need.append("structures with more than 1e5 atoms: %d extensions" % stats.get("extensions_of_structures_with_more_than_1e5_atoms"))
+    if stats.get("terms_superseded_beyond_row_2048") < (2 if tier == "quick" else 20):
+        need.append("terms superseded beyond row 2048 of a term list: %d" % stats.get("terms_superseded_beyond_row_2048"))
     ov = stats.sets.get("override", set())
     for kind in atomsgen.KNAMES:
         if not any(x.startswith(kind + ":forward") for x in ov) or not any(x.startswith(kind + ":reversed") for x in ov):
